@@ -1,7 +1,7 @@
 """C10 -- iterfit is order-independent and its mask honours weights and rejection limits."""
 
 from ..fn import FA
-from .bsplinelib import check_iterfit_order, check_iterfit_masks, check_iterfit_loop, check_ict, MATH
+from .bsplinelib import check_iterfit_order, check_iterfit_masks, check_iterfit_loop, check_ict, MATH, BSPLINE
 from .c17 import check_thresholds, check_qdone
 
 META = {
